@@ -324,10 +324,10 @@ func c06Notary(w *core.WorkerCtx) {
 // c06Drained: a wallet is funded, the funding is checkpointed by a first truncation, the wallet spends everything, and a
 // second truncation checkpoints that spend: its checkpointed funds must drop to exactly zero and every balance answer
 // with them (a single chain, so the truncations always start from the one tip).
-func c06Drained(w *core.WorkerCtx) {
+func c06Drained(w *core.WorkerCtx, report []string) {
 	rng := core.Rand(w.Seed, "C06drained")
 	desc := "c06 drained wallet: D funded 7.25, 1020 vertices, truncation, D spends 7.25, 1020 vertices, truncation, balance of D"
-	world := ledger.NewWorld(rng, w.R, []string{"C06"}, allSnapOracles, desc)
+	world := ledger.NewWorld(rng, w.R, report, allSnapOracles, desc)
 	defer world.Close()
 	d, err := ledger.Setup(world, ledger.Profile{Nodes: 1, Users: 4, SupplyClass: 0, Delivery: "lockstep"})
 	if err != nil {
@@ -376,14 +376,18 @@ func c06Drained(w *core.WorkerCtx) {
 	_, drained := n.Prev.Stored[sv.Hash]
 	addrs := append(world.AllAddresses(), ledger.NewActor("never-seen").Addr)
 	world.CheckBalances(n, addrs)
-	world.NontrivFor("C06", fmt.Sprintf("drained-wallet/spend-checkpointed=%v", drained))
-	world.EvalFor("C06", 1)
+	for _, p := range report {
+		world.NontrivFor(p, fmt.Sprintf("drained-wallet/spend-checkpointed=%v", drained))
+		world.EvalFor(p, 1)
+	}
+	// the drained wallet owns nothing: it must not be able to spend a single unit (nor may anybody else overspend)
+	world.OverspendProbes(n, d)
 	w.R.Count("c06_drained_wallet_scenarios", 1)
 }
 
 func c06Worker(w *core.WorkerCtx) {
 	if w.Batch == 2 {
-		c06Drained(w)
+		c06Drained(w, []string{"C06"})
 	}
 	if w.Batch == 1 {
 		c06Notary(w)
